@@ -356,7 +356,12 @@ def generate(run_seed, tier):
     outage = rw.random() < 0.08   # long sparse run with a long position-only outage
     if outage:
         T = 1800
-    wd = gen_world(rw, rf, T, 1500 if tier != "quick" else 700, outage=outage, n_clean=rw.choice([1, 1, 2]) if outage else None)
+    soak = tier != "quick" and not outage and rw.random() < 0.02   # hours of steady traffic, thousands of messages
+    if soak:
+        T = rw.choice([3600, 7200])
+        wd = gen_world(rw, rf, T, 12000, n_clean=rw.choice([1, 2]))
+    else:
+        wd = gen_world(rw, rf, T, 1500 if tier != "quick" else 700, outage=outage, n_clean=rw.choice([1, 1, 2]) if outage else None)
     base, tmode, rcv, acs, noisy, msgs = wd["base"], wd["tmode"], wd["receiver"], wd["aircraft"], wd["noisy"], wd["msgs"]
     # batching into calls
     bstyle = rb.choice(["single", "single", "small", "small", "large", "all", "mixed"])
